@@ -482,12 +482,38 @@ static void dedupe_imports(Chunk **chunks, size_t num_chunks)
       }
       int ret_val = UncText::compare(s1, s2, std::min(s1.size(), s2.size()), options::mod_sort_case_sensitive());
 
-      if (ret_val == 0)
+      if (ret_val != 0)
+      {
+         continue;
+      }
+      // 'import a.b;' and 'import a.c;' start with the same chunk: the rest of the two lines has to match as well
+      Chunk *pc1 = chunks[idx - 1]->GetNext();
+      Chunk *pc2 = chunks[idx]->GetNext();
+
+      while (  pc1->IsNotNullChunk()
+            && pc2->IsNotNullChunk()
+            && !pc1->IsNewline()
+            && !pc2->IsNewline()
+            && !pc1->IsComment()
+            && !pc2->IsComment()
+            && pc1->GetStr().size() == pc2->GetStr().size()
+            && UncText::compare(pc1->GetStr(), pc2->GetStr(), pc1->GetStr().size(), options::mod_sort_case_sensitive()) == 0)
+      {
+         pc1 = pc1->GetNext();
+         pc2 = pc2->GetNext();
+      }
+
+      if (  (  pc1->IsNullChunk()
+            || pc1->IsNewline()
+            || pc1->IsComment())
+         && (  pc2->IsNullChunk()
+            || pc2->IsNewline()
+            || pc2->IsComment()))
       {
          delete_chunks_on_line_having_chunk(chunks[idx - 1]);
       }
    }
-}
+} // dedupe_imports
 
 
 /**
